@@ -18,19 +18,38 @@ def findings_table():
 
 
 def seeded_table():
-    rows = ["| seeded change | breaks | needs, to manifest | caught by (quick tier) | mechanisms reported |", "|---|---|---|---|---|"]
+    rows = ["| seeded change | what was changed | first run | caught by (quick tier) | mechanisms reported | what the miss led to |", "|---|---|---|---|---|---|"]
     for mp in sorted(glob.glob(os.path.join(ROOT, "seeded", "*", "meta.json"))):
         m = json.load(open(mp))
+        mx = m.get("matrix", {})
         caught = ", ".join(m.get("caught_by", [])) or "**missed**"
-        rows.append("| `%s` | %s | %s | %s | %s |" % (os.path.basename(os.path.dirname(mp)), m.get("property"), m.get("needs", "").replace("|", "\\|")[:160],
-                                               caught, "; ".join(m.get("mechanisms", [])[:3]).replace("|", "\\|")[:160]))
+        if mx.get("on", "").startswith("base"):
+            caught += " (on the commit it was written against; " + ("harmless on HEAD after a later fix" if mx.get("demo_on_head_patch_rc") == 0 else "no longer applies to HEAD") + ")"
+        rows.append("| `%s` | %s | %s | %s | %s | %s |" % (
+            os.path.basename(os.path.dirname(mp)), m.get("title", "").replace("|", "\\|")[:150], m.get("first_run", ""), caught,
+            "; ".join(m.get("mechanisms", [])[:3]).replace("|", "\\|")[:140], m.get("strengthened", "").replace("|", "\\|")))
+    return "\n".join(rows)
+
+
+def revfix_table():
+    p = os.path.join(ROOT, "seeded", "reverse-fixes.json")
+    if not os.path.exists(p):
+        return "(not run yet)"
+    res = json.load(open(p))["results"]
+    rows = ["| fix taken out | property | how | verdict | mechanisms reported (that go away with the fix) |", "|---|---|---|---|---|"]
+    for r in res:
+        rows.append("| `%s` %s | %s | %s | %s | %s |" % (r["commit"], r.get("subject", "")[5:75].replace("|", "\\|"), r["property"], r["how"],
+                                                  ("caught" if r["caught"] else "**missed**") + " (%s)" % r["verdict"],
+                                                  "; ".join(r["mechanisms"][:3]).replace("|", "\\|")[:150]))
+    rows.append("")
+    rows.append("%d of %d reversed fixes reported." % (sum(1 for r in res if r["caught"]), len(res)))
     return "\n".join(rows)
 
 
 def main():
     p = os.path.join(ROOT, "DESIGN.md")
     s = open(p).read()
-    for name, fn in (("FINDINGS", findings_table), ("SEEDED", seeded_table)):
+    for name, fn in (("FINDINGS", findings_table), ("SEEDED", seeded_table), ("REVFIX", revfix_table)):
         b, e = "<!-- %s-TABLE-BEGIN -->" % name, "<!-- %s-TABLE-END -->" % name
         if b in s and e in s:
             s = s[:s.index(b) + len(b)] + "\n" + fn() + "\n" + s[s.index(e):]
